@@ -124,12 +124,15 @@ def strSegs (version : Name) (a : Addr) : Option (List Name) :=
     let m := if a.protoPlus = false then a.module ++ "_pb2".toList else m0
     m :: (a.parent ++ [a.name])
 
-/-- `Address.rel(address)`: the three same-module rules, else `str(self)`. -/
+/-- `Address.rel(address)`: the three same-module rules, else `str(self)`.  Since the `fix:` commit
+    92701a6 the second rule (bare name relative to the referencing message) applies only when the
+    referencing message is top-level (`not address.parent`); before it, a nested `X.A` referring to
+    `A.B` was given the bare `B` (§9-F9; see findings/C02.json, "fixed"). -/
 def rel (version : Name) (self ctx : Addr) : Option Ref :=
   if self.package = ctx.package ∧ self.module = ctx.module then
     if self.parent ≠ [] ∧ ctx.parent ≠ [] ∧ self.parent.head? = ctx.parent.head? then
       some (.quoted (self.parent ++ [self.name]))
-    else if self.parent ≠ [] ∧ self.parent.head? = some ctx.name then
+    else if self.parent ≠ [] ∧ ctx.parent = [] ∧ self.parent.head? = some ctx.name then
       some (.bare (self.parent.tail ++ [self.name]))
     else some (.quoted (self.parent ++ [self.name]))
   else (strSegs version self).map .bare
